@@ -54,7 +54,7 @@ PROPS = {
     'C04': dict(extra=['conc_explore'], modules=['Hagall.Props.C04'], profiles=['mixed', 'comp', 'module', 'malformed', 'latency'], n=(240, 4000),
                 focus=None,
                 topics=slice_of(ALL_TOPICS, kinds=['outcome'], answer_only=True, outs=ANSWERS)),
-    'C05': dict(tools=['idstress', 'drive', 'extract', 'wire-race'], extra=['id_stress', 'race_harness', 'conc_explore'], modules=['Hagall.Props.C05', 'Hagall.Props.C05Premature'], profiles=['pose', 'mixed', 'module'], n=(240, 4000),
+    'C05': dict(tools=['idstress', 'drive', 'extract', 'wire-race'], extra=['id_stress', 'race_harness', 'conc_explore'], modules=['Hagall.Props.C05', 'Hagall.Props.C05Premature'], profiles=['pose', 'owner', 'module'], n=(240, 4000),
                 focus={'entityDelete', 'updatePose', 'assetAdd'},
                 topics=slice_of(['entityDelete', 'updatePose', 'assetAdd'],
                                 outs={'error', 'entityDeleteResp', 'entityDeleteBcast', 'poseBcast', 'assetAddResp', 'assetAddBcast'})),
